@@ -1,13 +1,28 @@
 /-
-C14 — the hypothesis `PcsShape.wf` of `packing_aligned_*` cannot be dropped.
+C14 — the malformed-sibling-count shape, after the repair /repo fc0321f.
 
-`CommitPhaseProofStepTargets::new` allocates `(2^log_arity − 1)·D` sibling-coefficient inputs,
-`get_private_values` packs `sibling_values.len()·D` values. For a proof whose step carries
-`log_arity = 1` but two siblings, the packed private vector is longer than `private_flat_len`
-(D = 4: 8 values for 4 targets). This is *not* reported as a finding: such a proof is malformed
-(native `verify_query` rejects `sibling_values.len() != arity − 1`), and the circuit side fails
-safe — `set_private_inputs` returns `PrivateInputLengthMismatch`. The harness replays exactly this
-shape on the real code every run and requires that rejection (`corpus/c14/malformed_siblings.json`).
+History. `CommitPhaseProofStepTargets::new` used to allocate `(2^log_arity − 1)·D`
+sibling-coefficient inputs while `get_private_values` packs `sibling_values.len()·D` values; for a
+proof whose step carries `log_arity = 1` but two siblings the packed private vector was longer than
+`private_flat_len` (D = 4: 18 values for 14 targets), `packing_aligned_*` needed the hypothesis
+`PcsShape.wf`, and this file proved that the hypothesis could not be dropped (`wf_needed`).
+
+Now `new` allocates `sibling_values.len()·D` targets: the same shape is *aligned* (`bad_lengths`:
+18 values for 18 targets; `packing_aligned_*` hold unconditionally, which makes the old `wf_needed`
+false), and it is refused when the verifier circuit is built:
+
+* `bad_rejected` — this shape: `friSibCheck` answers `siblings 0 0` (query 0, phase 0);
+* `P3R.C14.malformed_siblings_rejected` (`Props/C14Siblings.lean`) — every shape that is not `wf`,
+  every `D ≥ 1`: error;
+* `sib_check_needed` — why the build-time check matters for "every input matters": on this shape
+  the surplus sibling's four coefficients are allocated and packed, and the verifier model consumes
+  none of them (the fold of an arity-2 phase reads one sibling). So `no_dead_input_uni` is false
+  without its hypothesis (`wf`, or `friSibCheck = ok` in `no_dead_input_uni_built`).
+
+The harness replays exactly this shape on the real code every run
+(`corpus/c14/malformed_siblings.json`): allocate / pack / run accepts the vectors (lengths agree),
+`verify_p3_uni_proof_circuit`-level construction (`RecursivePcs::verify_circuit`) must fail with
+the sibling-count `InvalidProofShape`.
 -/
 import P3R.Props.C14
 
@@ -20,28 +35,45 @@ def badUni : UniShape := ⟨0, ⟨1, none, 1, none⟩, ⟨3, some 3, none, none,
 
 theorem bad_not_wf : badPcs.wf = false := by decide
 
-/-- Lengths differ: 18 private values are packed for 14 private targets (D = 4, E = 8). -/
+/-- Lengths agree now: 18 private values are packed for 18 private targets (D = 4, E = 8);
+    before the repair: 18 for 14. -/
 theorem bad_lengths :
-    (uniPriv 4 badUni).length = 18 ∧ privateFlatLen (uniAlloc 4 8 badUni) = 14 := by
+    (uniPriv 4 badUni).length = 18 ∧ privateFlatLen (uniAlloc 4 8 badUni) = 18 := by
   constructor <;> decide
 
-/-- **The unconditional statement is false**: without `wf`, packing is not aligned. -/
-theorem wf_needed :
-    ¬ ∀ (D E : Nat) (s : UniShape),
-        pubOf (uniAlloc D E s) = uniPub E s ∧ privOf (uniAlloc D E s) = uniPriv D s := by
-  intro h
-  have h2 := congrArg List.length (h 4 8 badUni).2
-  have := bad_lengths
-  simp only [privateFlatLen] at this
-  omega
+/-- **Rejected at build time**: the verifier model refuses the shape at query 0, phase 0. -/
+theorem bad_rejected : friSibCheck 4 badPcs.fri = .error (.siblings 0 0) := by rfl
 
-/-- The public half needs no hypothesis at all. -/
+/-- The general statement specialised to this shape (the route every malformed shape takes). -/
+theorem bad_rejected' : ∃ e, friSibCheck 4 badPcs.fri = .error e :=
+  malformed_siblings_rejected 4 (by decide) badPcs.fri bad_not_wf
+
+/-- **The hypothesis of `no_dead_input_uni(_built)` cannot be dropped**: the last coefficient of
+    the surplus sibling (flat position 7 of `fri.q0.ph0.sib`) is allocated and consumed by nothing. -/
+theorem sib_check_needed :
+    ¬ ∀ (D E : Nat) (s : UniShape), s.validated = true →
+        ∀ sl ∈ uniAlloc D E s, sl.lab ∈ uniUses D E s := by
+  intro h
+  have h1 : (⟨Vis.priv, "fri.q0.ph0.sib.7"⟩ : Slot) ∈ uniAlloc 4 8 badUni := by decide
+  have h2 := h 4 8 badUni (by decide) _ h1
+  revert h2
+  decide
+
+/-- Both halves of the alignment need no hypothesis at all (kept under its old name for the public
+    half; the private half is `P3R.C14.packing_aligned_uni`). -/
 theorem pub_aligned_unconditional (D E : Nat) (s : UniShape) :
-    pubOf (uniAlloc D E s) = uniPub E s := by
-  simp [uniAlloc, uniPub, pubOf_optL, coms_pub, ov_pub, pcs_pub, cap_pub]
+    pubOf (uniAlloc D E s) = uniPub E s := (packing_aligned_uni D E s).1
+
+/-- The formerly failing instance, now a theorem: the malformed shape is packed in allocation order. -/
+theorem bad_aligned :
+    pubOf (uniAlloc 4 8 badUni) = uniPub 8 badUni ∧ privOf (uniAlloc 4 8 badUni) = uniPriv 4 badUni :=
+  packing_aligned_uni 4 8 badUni
 
 end P3R.Witness.C14
 
-#print axioms P3R.Witness.C14.wf_needed
 #print axioms P3R.Witness.C14.bad_lengths
+#print axioms P3R.Witness.C14.bad_rejected
+#print axioms P3R.Witness.C14.bad_rejected'
+#print axioms P3R.Witness.C14.sib_check_needed
 #print axioms P3R.Witness.C14.pub_aligned_unconditional
+#print axioms P3R.Witness.C14.bad_aligned
